@@ -15,6 +15,9 @@ from .values import (NamedTupleClsV, SV, Args, BoolTermV, BoundV, BuiltinV, Clas
                      SeqTermV, St, SuperV, TupleV, Unsupported, V)
 
 
+LOG_METHODS = {'debug', 'info', 'warning', 'error', 'exception', 'critical', 'log'}
+
+
 class CtxV(V):
     """A context manager value: enter(engine, st) -> outs ; exit(engine, body_out) -> outs"""
 
@@ -72,6 +75,12 @@ class CallMixin:
             return self.ok(st, self.make_super(st, node))
         if isinstance(node.func, ast.Name) and node.func.id == 'cast' and len(node.args) == 2:
             return self.ev(st, node.args[1])
+        if isinstance(node.func, ast.Attribute) and node.func.attr in LOG_METHODS:
+            base_src = ast.unparse(node.func.value)
+            if base_src.endswith('logger') or base_src.endswith('LOGGER') or base_src.endswith('_logger'):
+                # A-LOG: logging calls are no-ops that do not raise; their arguments are not evaluated (messages only)
+                self.note('logging calls are dropped (A-LOG): ' + base_src + '.' + node.func.attr)
+                return self.ok(st, self.py_none())
         if isinstance(node.func, ast.Name) and node.func.id in ('any', 'all') and len(node.args) == 1 \
                 and isinstance(node.args[0], ast.GeneratorExp) and node.func.id not in st.loc:
             return self.quantify_generator(st, node.args[0], node.func.id == 'all', node)
@@ -360,7 +369,12 @@ class CallMixin:
                 if p in kw or defaults[i] is not None or args.kwrest is not None:
                     t, f = self.fork(st, nonempty)
                     if t is not None and f is not None:
-                        raise Unsupported(f'ambiguous positional binding of {p} from symbolic *args {fi_desc}')
+                        # both feasible: split the call into "tail exhausted" and "tail supplies this parameter"
+                        a_empty = Args(list(args.pos), None, dict(args.kw), args.kwrest)
+                        a_more = Args(list(args.pos) + [SV(tail[0])], z3.SubSeq(tail, 1, z3.Length(tail) - 1), dict(args.kw), args.kwrest)
+                        if len(args.pos) != i:
+                            raise Unsupported(f'ambiguous positional binding of {p} from symbolic *args {fi_desc}')
+                        return results + self.bind_params(f, fnode, a_empty, fi_desc) + self.bind_params(t, fnode, a_more, fi_desc)
                     if t is not None:
                         st = t
                         loc[p] = SV(tail[0])
